@@ -205,6 +205,42 @@ def enumerate_cases(tier):
                                    "vectors": [{name: v} for v in pool]}
 
 
+    # two typed leaves: every operator between every pair of widths and
+    # signednesses, its result consumed by the sign-dependent operations
+    for kind in ("reg", "var"):
+        for va, fa in (("r", "Q"), ("sr", "q"), ("w", "I"), ("sw", "i")):
+            for vb, fb in (("r", "Q"), ("sr", "q"), ("w", "I"), ("sw", "i"),
+                           (None, "b"), (None, "H")):
+                if kind == "reg":
+                    if vb is None:
+                        continue
+                    decls = []
+                    regs = [{"no": 3, "view": va}, {"no": 0, "view": vb}]
+                    A, B, na, nb = ["reg", va, 3], ["reg", vb, 0], "r3", "r0"
+                else:
+                    decls = [{"name": "v0", "kind": "local", "fmt": fa},
+                             {"name": "v1", "kind": "map", "fmt": fb}]
+                    regs = []
+                    A, B, na, nb = ["var", "v0"], ["var", "v1"], "v0", "v1"
+                la, ha = dsl.fmt_range(fa)
+                lb, hb = dsl.fmt_range(fb)
+                top = ha // 2 + 1 if la == 0 else ha      # top bit / largest
+                vectors = [{na: a, nb: b} for a, b in (
+                    (top, 0), (top + 16 if la == 0 else la, 0), (top, 1),
+                    (ha, 0), (la, 1), (1, 3), (top, hb), (7, lb),
+                    (top // 2, 1), (-1 if la else ha, 2))
+                    if la <= a <= ha and lb <= b <= hb]
+                for op in BINOPS:
+                    inner = ["bin", op, A, B]
+                    for outer in (["bin", ">>", inner, ["const", 4]],
+                                  ["abs", inner],
+                                  ["bin", "//", inner, ["const", 3]],
+                                  ["bin", "%", inner, ["const", 3]]):
+                        yield {"decls": decls, "regs": regs, "dst": A,
+                               "aug": None, "expr": outer,
+                               "vectors": vectors}
+
+
 # ----------------------------------------------------------------- oracle
 
 class Unjudged(Exception):
@@ -274,12 +310,13 @@ def ev(node, env, fmts, W, facts):
     op = node[1]
     lv, ls, lsub = ev(node[2], env, fmts, W, facts)
     rv, rs, rsub = ev(node[3], env, fmts, W, facts)
-    signed = ls or rs
+    # the count of a right shift does not make the shifted value signed
+    signed = ls if op == ">>" else ls or rs
     if op in SPECIAL:
         for v, s in lsub + rsub:
             if not fits(v, s, W):
                 raise Unjudged(f"value feeding {op} does not fit {W} bits")
-        for v in lv | rv:
+        for v in lv | (set() if op == ">>" else rv):
             if not fits(v, signed, W):
                 raise Unjudged(f"operand of {op} does not fit {W} bits")
     out = set()
